@@ -175,15 +175,18 @@ Lemma to_map_lemma fk l : to_map fk l = map_build (map (fun e => (fk e, e)) l).
 Proof. unfold to_map. apply to_map_v_lemma. Qed.
 
 (* ---------- pairs ---------- *)
-Lemma combine_map_fst (ks vs : list Z) : length ks = length vs -> map fst (combine ks vs) = ks.
+Lemma combine_map_fst (ks : list Z) : forall vs : list Z, length ks = length vs -> map fst (combine ks vs) = ks.
 Proof.
-  revert vs. induction ks as [|k t IH]; intros [|v u] Hl; cbn [length] in Hl; try discriminate; [reflexivity|reflexivity|].
-  cbn [combine map fst]. rewrite IH by lia. reflexivity.
+  induction ks as [|k t IH]; intros vs Hl; [reflexivity|].
+  destruct vs as [|v u]; [cbn [length] in Hl; discriminate Hl|].
+  cbn [combine map fst]. rewrite IH; [reflexivity|]. cbn [length] in Hl. lia.
 Qed.
-Lemma combine_map_snd (ks vs : list Z) : length ks = length vs -> map snd (combine ks vs) = vs.
+Lemma combine_map_snd (ks : list Z) : forall vs : list Z, length ks = length vs -> map snd (combine ks vs) = vs.
 Proof.
-  revert vs. induction ks as [|k t IH]; intros [|v u] Hl; cbn [length] in Hl; try discriminate; [reflexivity|].
-  cbn [combine map snd]. rewrite IH by lia. reflexivity.
+  induction ks as [|k t IH]; intros vs Hl.
+  - destruct vs as [|v u]; [reflexivity|cbn [length] in Hl; discriminate Hl].
+  - destruct vs as [|v u]; [cbn [length] in Hl; discriminate Hl|].
+    cbn [combine map snd]. rewrite IH; [reflexivity|]. cbn [length] in Hl. lia.
 Qed.
 
 Lemma new_pairs_lemma keys values :
@@ -283,4 +286,28 @@ Proof.
     destruct (mapx_to_map ks vs); [eexists; reflexivity|eexists; reflexivity|destruct H].
   - pose proof (new_pairs_lemma ks vs) as H.
     destruct (new_pairs ks vs); [eexists; reflexivity|eexists; reflexivity|destruct H].
+Qed.
+
+(* ---------- small corollaries used by props/C16.v ---------- *)
+Lemma reverse_involutive_lemma l : obind (reverse l) reverse = Ok l.
+Proof. rewrite reverse_lemma. cbn [obind]. rewrite reverse_lemma, rev_involutive. reflexivity. Qed.
+
+Lemma reverse_self_same_lemma l : reverse_self l = reverse l.
+Proof. rewrite reverse_self_lemma, reverse_lemma. reflexivity. Qed.
+
+Lemma func_variants_NoDup_lemma src dst :
+  NoDup (union_set_func Z.eqb src dst) /\ NoDup (intersect_set_func Z.eqb src dst) /\
+  NoDup (diff_set_func Z.eqb src dst) /\ NoDup (symdiff_set_func Z.eqb src dst).
+Proof. repeat split; apply deduplicate_func_NoDup. Qed.
+
+Lemma add_arg_after_lemma spare src e index :
+  add_arg_after spare src e index =
+  if spare && (0 <=? index) && (index <=? Z.of_nat (length src))
+  then firstn (length src) (firstn (Z.to_nat index) src ++ e :: skipn (Z.to_nat index) src)
+  else src.
+Proof.
+  unfold add_arg_after. rewrite add_lemma.
+  destruct ((0 <=? index) && (index <=? Z.of_nat (length src))) eqn:Hr.
+  - rewrite <- andb_assoc, Hr, andb_true_r. reflexivity.
+  - rewrite <- andb_assoc, Hr, andb_false_r. reflexivity.
 Qed.
